@@ -9,7 +9,7 @@ NOT_IMPL = "static check for the structural clause(s) named in DESIGN.md not imp
 PROPS = {
     "C26": dict(
         claimed=True, design="§2 C26",
-        technique="AST enumeration of all coded-exception constructor calls + constant folding of the code argument + catalogue/placeholder table comparison; **name splats resolved to their local dict literal, duplicate-keyword detection",
+        technique="AST enumeration of all coded-exception constructor calls + constant folding of the code argument + catalogue/placeholder table comparison; **name splats resolved to their local dict literal, duplicate-keyword detection; **TABLE[key] splats resolved to the keywords every row of a module-level table supplies",
         text="Decides the property's static quantifier in full: every constructor call of SemanticError / RunTimeError / "
              "DataLoadError / InputValidationException (and subclasses) in src/vtlengine is enumerated, its code is folded to a "
              "finite set and looked up in the catalogue literal, and the message's placeholders are compared with the keywords "
@@ -21,7 +21,7 @@ PROPS = {
 
     "C11": dict(
         claimed=True, design="§2 C11",
-        technique="finite decision tables of the four promotion functions evaluated over all 9x9x(type_to_check)x(return_type) cells + docs list-table comparison + CFG must-pass-through of type checks + purity rule; memoisation inventory over the operator type rules (result must depend only on the arguments); definite-assignment analysis with guard facts for class attributes assigned inside operator methods (call-scoped class state), dead-argument refinement; 9x9 evaluation of operator-specific compatibility overrides (symmetry)",
+        technique="finite decision tables of the four promotion functions evaluated over all 9x9x(type_to_check)x(return_type) cells + docs list-table comparison + CFG must-pass-through of type checks + purity rule; memoisation inventory over the operator type rules (result must depend only on the arguments); definite-assignment analysis with guard facts for class attributes assigned inside operator methods (call-scoped class state), dead-argument refinement; 9x9 evaluation of operator-specific compatibility overrides (symmetry); promotion pre-checks restrict only reviewed pairs; case result type over branch permutations",
         text="Decides over the whole finite type domain: the implicit-promotion table equals the documented table; check_* agrees with "
              "the promotion that computes the result for every cell and every (type_to_check, return_type) pair declared by an operator "
              "class; commutative operators get order-independent result types; accepted iff a documented common type admitted by the "
@@ -32,14 +32,14 @@ PROPS = {
              "explicit reasoned exemption table."),
     "C09": dict(
         claimed=True, design="§3 C09",
-        technique="decision table of Cast.check_without_mask vs docs list-tables; symbolic evaluation of the rename branch and of the SQL cast dispatch over all type pairs; CFG must-pass-through; integer-typing lint of `/` in the conversion macros; concrete evaluation of the Time->Time_Period macro text over a calendar grid against the calendar definition of VTL periods; TRUNC-before-integer-cast rule on the evaluated cast dispatch; dataset rename rule by finite evaluation of Cast.dataset_validation; sibling agreement of the cast-to-date SQL type with the loaders' storage type",
+        technique="decision table of Cast.check_without_mask vs docs list-tables; symbolic evaluation of the rename branch and of the SQL cast dispatch over all type pairs; CFG must-pass-through; integer-typing lint of `/` in the conversion macros; concrete evaluation of the Time->Time_Period macro text over a calendar grid against the calendar definition of VTL periods; TRUNC-before-integer-cast rule on the evaluated cast dispatch; dataset rename rule by finite evaluation of Cast.dataset_validation; sibling agreement of the cast-to-date SQL type with the loaders' storage type; date-conversion failures mapped for every wording of the engine",
         text="Decides the accept/reject table of cast (code vs the two documented tables, 8x8), that every validation path performs the "
              "check, the documented measure-renaming rule, and that representation-changing conversions are routed to existing SQL "
              "macros rather than a generic CAST. Does not decide per-value conversion results (DuckDB semantics).",
         note="docs/data_types.rst is the oracle. Known findings: 4 table cells and 2 generic-CAST pairs (see known_findings.txt)."),
     "C30": dict(
         claimed=True, design="§3 C30",
-        technique="decision table of set_decimal_config over ({unset} U [-5..45])^2 settings incl. call sequences; docs constant comparison; call-graph search for memoised dependants of the decimal type; abstract interpretation (E6) of the CSV read-type and DataFrame SELECT builders for a Number component over all source column types (text-to-decimal path, no binary-float cast); binary-float conversion lint on the Python load path",
+        technique="decision table of set_decimal_config over ({unset} U [-5..45])^2 settings incl. call sequences; docs constant comparison; call-graph search for memoised dependants of the decimal type; abstract interpretation (E6) of the CSV read-type and DataFrame SELECT builders for a Number component over all source column types (text-to-decimal path, no binary-float cast); binary-float conversion lint on the Python load path; get_decimal_type evaluated after set_decimal_config for every accepted setting (disable value included)",
         text="Decides the validation half of the property exhaustively: which settings are accepted, that rejection is the documented "
              "configuration error naming the offending variable, that the published (width, scale) is the documented effective value, "
              "that outcomes do not depend on earlier settings, and that nothing derived from the decimal type is memoised or hard-coded. "
@@ -48,7 +48,7 @@ PROPS = {
              "scale > width accepted."),
     "C27": dict(
         claimed=True, design="§3 C27",
-        technique="table extraction (code dict literals, docs list-tables, installed pysdmx enum source) + CFG dominance of guarded lookups + def-use provenance of the per-component fields; globals inventory + local taint for hand-rolled caches of conversion results; local caches across loop iterations on the conversion path",
+        technique="table extraction (code dict literals, docs list-tables, installed pysdmx enum source) + CFG dominance of guarded lookups + def-use provenance of the per-component fields; globals inventory + local taint for hand-rolled caches of conversion results; local caches across loop iterations on the conversion path; structure loader evaluated over all ordered pairs of VTL types on two identifiers (no precondition on combinations)",
         text="Decides the mapping table in full: VTL_DTYPES_MAPPING / VTL_ROLE_MAPPING / nullability rule equal the documented tables, "
              "every member of the installed pysdmx DataType and Role enums is mapped or rejected with InputValidationException (guard "
              "dominates the lookup), every output component's four fields derive from the one SDMX component being converted, and "
@@ -58,7 +58,7 @@ PROPS = {
 
     "C16": dict(
         claimed=True, design="§3 C16",
-        technique="statement CFG with exception edges: acquire/release pairing path queries to the normal AND exceptional exit (BaseException-aware), wrapper summaries; escape analysis of the connection; set/reset pairing of per-statement globals",
+        technique="statement CFG with exception edges: acquire/release pairing path queries to the normal AND exceptional exit (BaseException-aware), wrapper summaries; escape analysis of the connection; set/reset pairing of per-statement globals; every-path-raises rule for the duckdb handlers of the execution / loading modules (shared with C32)",
         text="Decides the structural half of the property for every failure point at once: in the connection context manager every "
              "statement after an acquisition has an exception edge, and every path from the acquisition of the session directory / the "
              "connection to either exit passes its release; the connection cannot outlive the with-region of run() (no use outside, no "
@@ -69,7 +69,7 @@ PROPS = {
              "inside DuckDB, rmtree failing (ignore_errors=True by design)."),
     "C13": dict(
         claimed=True, design="§3 C13",
-        technique="CFG path queries (must-precede / must-pass-through per loop iteration), def-use and guard-shape rules on the schedule builder, who-may-emit rule for CREATE/DROP TABLE, 2x2 truth-table comparison; finite evaluation of _ds_usage_analysis, cleanup_scheduled_datasets and the final collection loop on model dependency tables against the schedule specification; finite evaluation of load_scheduled_datasets on mixed sources; def-use provenance of the executed schedule in run()",
+        technique="CFG path queries (must-precede / must-pass-through per loop iteration), def-use and guard-shape rules on the schedule builder, who-may-emit rule for CREATE/DROP TABLE, 2x2 truth-table comparison; finite evaluation of _ds_usage_analysis, cleanup_scheduled_datasets and the final collection loop on model dependency tables against the schedule specification; finite evaluation of load_scheduled_datasets on mixed sources; def-use provenance of the executed schedule in run(); handler field matrix + every-path traversal of the dependency analysis (shared with C12); session resource pairing of configured_connection (shared with C16)",
         text="Decides the code-shape facts the load/execute/release argument rests on: per-statement ordering load < CREATE < cleanup on "
              "every path of an iteration with the loop's own index; numbering agreement between DAG, transpiler and executor; a single "
              "owner for table creation and release; once-only load; release scheduled at last_consumer.get(name, producer); no early exit "
@@ -79,7 +79,7 @@ PROPS = {
              "functions are reshaped."),
     "C14": dict(
         claimed=True, design="§3 C14",
-        technique="def-use (single reaching definition) of the fetch query, CFG dominance, decision-table evaluation of save_datapoints_duckdb over format x select_sql x delete; finite evaluation of the scalar writer on falsy values",
+        technique="def-use (single reaching definition) of the fetch query, CFG dominance, decision-table evaluation of save_datapoints_duckdb over format x select_sql x delete; finite evaluation of the scalar writer on falsy values; output-folder threading rule over the execution modules; no-data rule over everything reachable from run()'s structure loader",
         text="Decides that the file and the in-memory DataFrame are produced by the same SELECT, that the file sink copies that SELECT for "
              "every output format into <dataset>.<format> with the matching FORMAT, that no in-memory data is attached on the file path, "
              "that the time-period representation step precedes both sinks, and that the scalar file receives exactly the Scalars of the "
@@ -97,7 +97,7 @@ PROPS = {
 
     "C12": dict(
         claimed=True, design="§3 C12",
-        technique="AST-node x visitor-method matrix (E7) for the dependency analysis, class-filter agreement, attribute-read parity, CFG must-pass-through, per-statement state reset paths, interprocedural operand-mutation analysis (E2) over all Operators validation methods; path form of the dependency traversal (field-present specialisation, pure kind-test guards, inherited handlers); alias-after-operand; UDO body evaluated on a copy (def-use + CFG)",
+        technique="AST-node x visitor-method matrix (E7) for the dependency analysis, class-filter agreement, attribute-read parity, CFG must-pass-through, per-statement state reset paths, interprocedural operand-mutation analysis (E2) over all Operators validation methods; path form of the dependency traversal (field-present specialisation, pure kind-test guards, inherited handlers); alias-after-operand; UDO body evaluated on a copy (def-use + CFG); effect analysis with the shared structure tables as origins (no transpiler / structure-visitor method mutates a stored structure); class-state definite assignment (shared with C11)",
         text="Decides the structural conditions of order independence: the dependency analysis descends into every operand-bearing field of "
              "every AST node class; the statements it numbers are exactly those the sorter permutes; names defined with ':=' and '<-' are "
              "resolved alike; redefinition and cycle errors are raised on every path whatever the order; analyser state is reset between "
@@ -108,7 +108,7 @@ PROPS = {
 
     "C15": dict(
         claimed=True, design="§3 C15",
-        technique="lint over every SQL skeleton (f-string/constant with typed holes) and .sql macro body: tokeniser + window/aggregate/LIMIT/DISTINCT ON/nondeterministic-function rules; who-may-call rule for partial fetch APIs; guard-emission pairing in the OVER-clause builder; (window lint: holes inside a PARTITION BY list do not stand for an ORDER BY); window-frame table shared from C06; sampled / randomised SQL lint",
+        technique="lint over every SQL skeleton (f-string/constant with typed holes) and .sql macro body: tokeniser + window/aggregate/LIMIT/DISTINCT ON/nondeterministic-function rules; who-may-call rule for partial fetch APIs; guard-emission pairing in the OVER-clause builder; (window lint: holes inside a PARTITION BY list do not stand for an ORDER BY); window-frame table shared from C06; sampled / randomised SQL lint; sequential written-globals inventory over the transpiler and viral-propagation SQL writers (shared with C17)",
         text="Decides the necessary structural condition for determinism under any thread count / storage mode: since the engine is "
              "configured with preserve_insertion_order=false (premise read from the source), no emitted SQL may contain a construct "
              "whose value depends on row order without a total ORDER BY, and results must be fetched completely. Every SQL text the "
@@ -118,7 +118,7 @@ PROPS = {
              "exemption: union's ROW_NUMBER() OVER () (could not be made to misbehave on DuckDB 1.5.5)."),
     "C33": dict(
         claimed=True, design="§3 C33",
-        technique="the C15 order-dependence lint + def-use chain from the CSV header read to the positional read_csv column map + explicit INSERT column lists + no positional sampling of values in the loaders; constant-position accesses to an input header inventoried against a reviewed table; every INSERT skeleton of a loader examined; group form of viral rules per rule kind; enumerated pair table shared from C28",
+        technique="the C15 order-dependence lint + def-use chain from the CSV header read to the positional read_csv column map + explicit INSERT column lists + no positional sampling of values in the loaders; constant-position accesses to an input header inventoried against a reviewed table; every INSERT skeleton of a loader examined; group form of viral rules per rule kind; enumerated pair table shared from C28; exact-accumulation rule for SUM/AVG templates (shared with C15); flow/stock window keys evaluated against the operand's identifiers",
         text="Decides row-order independence at the level of emitted SQL (same lint as C15) and column-order independence of all three "
              "loaders: the positional read_csv column map is ordered by the file's own header and never re-ordered, DataFrame/Parquet "
              "inserts name their columns, and no loader decision is taken from a positional sample of the data.",
@@ -126,7 +126,7 @@ PROPS = {
 
     "C05": dict(
         claimed=True, design="§3 C05",
-        technique="grammar-derived operator arity vs def-use of the operand list per operator branch; CFG per-iteration must-append; SQL-skeleton scan for positional UNION ALL over star projections; classification of projection-skip conditions as order-sensitive or not; registry.sql answered from the extracted operator registry (templates and generators lowered)",
+        technique="grammar-derived operator arity vs def-use of the operand list per operator branch; CFG per-iteration must-append; SQL-skeleton scan for positional UNION ALL over star projections; classification of projection-skip conditions as order-sensitive or not; registry.sql answered from the extracted operator registry (templates and generators lowered); CFG must-pass-through: register_dataframes creates a table on every path of its loop (shared with C19)",
         text="Decides the structural clauses of the set-operator property: every operand of the n-ary operators (arity read from Vtl.g4) "
              "reaches the generated SQL, each child contributes exactly one operand on every path, positional combination (UNION ALL) "
              "happens only over explicit name-based projections, nested query operands are not re-quoted, and matching keys are the "
@@ -136,7 +136,7 @@ PROPS = {
 
     "C32": dict(
         claimed=True, design="§3 C32",
-        technique="writer/reader agreement between SQL error('…') texts and the ordered substring decision list of the error mappers; enclosing-handler analysis of data-evaluating execute sites reachable from execute_queries; bare-raise and visitor-coverage inventory on the execution path; non-message guards of mapper branches evaluated (E6) per execution site (statement text vs the empty text of the fetch site); macro-availability rule: macros called by load/fetch SQL vs the conditions under which execute_queries adds them to the installed closure; dataset-form vs classifier/structure-dispatcher contradiction rule over the node-class matrix; the repository's own macro-library parser evaluated (E6) on the real .sql files against a comment/string-aware reading; C26's constructibility rule on the error mappers; per-statement analyser state rule shared with C12; partial-operation lint of the error mappers; finite evaluation of scalar output formatting; typed-macro / connect-config agreement",
+        technique="writer/reader agreement between SQL error('…') texts and the ordered substring decision list of the error mappers; enclosing-handler analysis of data-evaluating execute sites reachable from execute_queries; bare-raise and visitor-coverage inventory on the execution path; non-message guards of mapper branches evaluated (E6) per execution site (statement text vs the empty text of the fetch site); macro-availability rule: macros called by load/fetch SQL vs the conditions under which execute_queries adds them to the installed closure; dataset-form vs classifier/structure-dispatcher contradiction rule over the node-class matrix; the repository's own macro-library parser evaluated (E6) on the real .sql files against a comment/string-aware reading; C26's constructibility rule on the error mappers; per-statement analyser state rule shared with C12; partial-operation lint of the error mappers; finite evaluation of scalar output formatting; typed-macro / connect-config agreement; every-path-raises rule for duckdb handlers; is_re2_incompatible evaluated over construct combinations; null-test dominance in _normalize_scalar_value (CFG)",
         text="Decides the structural conditions under which an execution failure can surface as a VTL error: every error text the "
              "engine's own SQL can raise is claimed by the intended branch of the mapper serving its execution site, every branch "
              "returns a coded VTL exception, statements that evaluate data are executed under a duckdb.Error handler that maps, no "
@@ -147,7 +147,7 @@ PROPS = {
 
     "C01": dict(
         claimed=True, design="§3 C01",
-        technique="operator-registry extraction (loops unrolled, generators lowered) + SQL expression parser + nullness abstract interpretation through macro bodies + exact three-valued evaluation vs Kleene tables + semantic-token vs SQL-generation-path comparison; abstract interpretation (E6) of the dataset-scalar operator builder for division in both operand orders; spelling grid of the period normaliser; hand-rolled cache keys vs parameters of the cached computation",
+        technique="operator-registry extraction (loops unrolled, generators lowered) + SQL expression parser + nullness abstract interpretation through macro bodies + exact three-valued evaluation vs Kleene tables + semantic-token vs SQL-generation-path comparison; abstract interpretation (E6) of the dataset-scalar operator builder for division in both operand orders; spelling grid of the period normaliser; hand-rolled cache keys vs parameters of the cached computation; wrapped-execute rule (every data-evaluating execute under `except duckdb.Error`, shared with C32); exact Integer carrier of the DataFrame loader (shared with C18)",
         text="Decides four structural clauses of the element-wise operator property for every operator at once: each token accepted by "
              "semantic analysis has an SQL generation path; every element-wise SQL template (and every macro it calls) yields NULL when an "
              "operand is NULL; and/or/xor/not have the VTL three-valued truth tables; division by zero travels from the DIV template "
@@ -158,7 +158,7 @@ PROPS = {
 
     "C08": dict(
         claimed=True, design="§3 C08",
-        technique="macro-table extraction from the .sql libraries + integer evaluation of the parsed period-limit and period-shift expressions with DuckDB's // and % semantics over all (period, shift in -60..60) cells vs calendar arithmetic + sibling limit-table comparison + macro call-site/signature agreement; Date timeshift expression obtained by E6 and evaluated by the concrete SQL evaluator over a calendar grid (round trip, injectivity); time_agg macro text vs the calendar oracle (sa/calx.py); finite evaluation (datetime / calendar as primitives) of the Python calendar helpers over every leap-rule class of 1900-2100 against a calendar oracle; spelling grid; getyear template evaluated over a period grid",
+        technique="macro-table extraction from the .sql libraries + integer evaluation of the parsed period-limit and period-shift expressions with DuckDB's // and % semantics over all (period, shift in -60..60) cells vs calendar arithmetic + sibling limit-table comparison + macro call-site/signature agreement; Date timeshift expression obtained by E6 and evaluated by the concrete SQL evaluator over a calendar grid (round trip, injectivity); time_agg macro text vs the calendar oracle (sa/calx.py); finite evaluation (datetime / calendar as primitives) of the Python calendar helpers over every leap-rule class of 1900-2100 against a calendar oracle; spelling grid; getyear template evaluated over a period grid; Python period patterns folded from their constant fragments and matched against the PeriodDuration limits",
         text="Decides the arithmetic clauses of the calendar property that live in this repository: period limits must be year-aware for "
              "weeks and days, Python and SQL must agree on them, the carry/modulo arithmetic of period shifting must equal calendar "
              "arithmetic for every period number and every shift in -60..60 (so shifting by n then -n is the identity and distinct "
@@ -169,7 +169,7 @@ PROPS = {
 
     "C19": dict(
         claimed=True, design="§3 C19",
-        technique="decision table of the CREATE TABLE builder; CFG ordering/must-pass rules in post-load validation; regular-language inclusion (regex -> NFA -> product search with shortest witnesses) between load regexes and the language of real periods; docs tables vs loader accept-language through the parsed normalisation macro; CFG must-pass-through of the duplicate / temporal checks excluding only the documented skip branch; E6 composition of CSV read type and SELECT builder for Integer columns; interprocedural event summaries (normalise / duplicate / temporal / single-row) through same-module helpers, function specialisation under the skip flag; read-type + guard agreement for Integer; spelling grid with null-from-value clause; NOT NULL table incl. type-overridden columns",
+        technique="decision table of the CREATE TABLE builder; CFG ordering/must-pass rules in post-load validation; regular-language inclusion (regex -> NFA -> product search with shortest witnesses) between load regexes and the language of real periods; docs tables vs loader accept-language through the parsed normalisation macro; CFG must-pass-through of the duplicate / temporal checks excluding only the documented skip branch; E6 composition of CSV read type and SELECT builder for Integer columns; interprocedural event summaries (normalise / duplicate / temporal / single-row) through same-module helpers, function specialisation under the skip flag; read-type + guard agreement for Integer; spelling grid with null-from-value clause; NOT NULL table incl. type-overridden columns; LIMIT-before-filter lint; _build_component evaluated over role x declared nullability; fetch time format (shared with C18); table-for-every-DataFrame CFG rule; canonicalisation under the load-validation switch (CFG specialised under the switch)",
         text="Decides the structural half of input rejection: NOT NULL constraints are emitted exactly for identifiers and non-nullable "
              "components; Time_Period values are normalised before duplicate/single-row/format checks, which lie on every path of every "
              "loader; the load regex admits only real periods (language inclusion with witnesses) and interval order is checked; every "
@@ -178,7 +178,7 @@ PROPS = {
              "periods accepted, reversed intervals accepted, documented Time forms rejected, three wrong documented examples)."),
     "C21": dict(
         claimed=True, design="§3 C21",
-        technique="table agreement across five code sites + docs; Python renderers lowered by the finite decision-table evaluator and SQL macros evaluated from their parsed text on every (indicator, period number, leap/common year); round trip through the parsed normalisation macro and the load regex; spelling grid (family x padding x case) through the parsed normalisation macro; macro availability shared from C32; def-use rule on the Python literal normaliser",
+        technique="table agreement across five code sites + docs; Python renderers lowered by the finite decision-table evaluator and SQL macros evaluated from their parsed text on every (indicator, period number, leap/common year); round trip through the parsed normalisation macro and the load regex; spelling grid (family x padding x case) through the parsed normalisation macro; macro availability shared from C32; def-use rule on the Python literal normaliser; sequential written-globals inventory over the time-handling modules; canonicalisation under VTL_SKIP_LOAD_VALIDATION (CFG specialised under the switch)",
         text="Decides that the four output formats are named consistently everywhere, that Python and SQL render every period of every "
              "indicator identically (or raise the same VTL error), that every rendered value normalises back to the same canonical, "
              "accepted period, that documented input spellings normalise to canonical periods, and that no format bypasses the "
@@ -188,7 +188,7 @@ PROPS = {
 
     "C20": dict(
         claimed=True, design="§3 C20",
-        technique="set comparison of coded rejections reachable (call graph) from the pandas validator vs the DuckDB loaders; regular-language symmetric difference (product automata with witnesses) of the two sides' temporal patterns; CFG ordering of the duplicate check; CFG must-pass-through of run()'s post-load checks (shared with C19); shared Integer CSV guard rule; spelling grid with null-from-value clause; memoised functions reading files",
+        technique="set comparison of coded rejections reachable (call graph) from the pandas validator vs the DuckDB loaders; regular-language symmetric difference (product automata with witnesses) of the two sides' temporal patterns; CFG ordering of the duplicate check; CFG must-pass-through of run()'s post-load checks (shared with C19); shared Integer CSV guard rule; spelling grid with null-from-value clause; memoised functions reading files; LIMIT-before-filter lint of the validation queries (shared with C19)",
         text="Decides agreement of the two sibling validators at the level where it is a property of the code's shape: both perform the "
              "same rejecting checks, both check duplicates on cast/normalised values, and the regular languages they accept for Date, "
              "Time and Time_Period are compared exactly, with a witness string for every difference. Automata quantify over all strings.",
@@ -196,7 +196,7 @@ PROPS = {
              "Four known findings (extra columns; Date, Time and Time_Period language differences)."),
     "C18": dict(
         claimed=True, design="§3 C18",
-        technique="CFG must-pass-through on the three loaders; per-type SQL of the CSV and DataFrame/Parquet SELECT builders obtained by lowering both builders over type x nullable x source type, compared for rejecting guards and for the Number conversion chain; header-order binding via C33; per-type comparison of the value-changing functions applied by the CSV and DataFrame/Parquet SELECT builders (E6); exact-carrier rule for the CSV read type; TIMESTAMP decision evaluated on model columns; model-connection evaluation of the fetch SELECT; partial-operation lint of the load error mapper",
+        technique="CFG must-pass-through on the three loaders; per-type SQL of the CSV and DataFrame/Parquet SELECT builders obtained by lowering both builders over type x nullable x source type, compared for rejecting guards and for the Number conversion chain; header-order binding via C33; per-type comparison of the value-changing functions applied by the CSV and DataFrame/Parquet SELECT builders (E6); exact-carrier rule for the CSV read type; TIMESTAMP decision evaluated on model columns; model-connection evaluation of the fetch SELECT; partial-operation lint of the load error mapper; handle_sdmx_columns evaluated over header x structure combinations; CREATE TABLE vs cast-target override agreement per loader; fetch probe predicate evaluated on model rows (sub-second fractions); exact Integer carrier of the DataFrame loader",
         text="Decides the structural conditions for the three input forms to behave alike: one schema builder and one post-load "
              "validation on every loader's success path, failures mapped and the table dropped, identical rejecting guards per "
              "component type in the two SELECT builders, Number always converted from text, CSV columns bound by header order.",
@@ -205,7 +205,7 @@ PROPS = {
 
     "C17": dict(
         claimed=True, design="§3 C17",
-        technique="lock-coverage analysis of every access to the compiled parser's global buffer (lexical with-regions + caller-side coverage via the call graph); inventory of process-global state (module globals, class attributes, module-level containers) with writers/readers intersected with API reachability and classified; def-use of the session directory name; conditional classification re-checked against dynamically dispatched visitor methods; hand-rolled cache detector; module-level objects mutated through aliases",
+        technique="lock-coverage analysis of every access to the compiled parser's global buffer (lexical with-regions + caller-side coverage via the call graph); inventory of process-global state (module globals, class attributes, module-level containers) with writers/readers intersected with API reachability and classified; def-use of the session directory name; conditional classification re-checked against dynamically dispatched visitor methods; hand-rolled cache detector; module-level objects mutated through aliases; class-level mutable defaults mutated through an instance are inventoried as process globals",
         text="Decides the structural conditions of thread safety that are visible in the code: the parser's single global buffer is only "
              "touched under the re-entrant parser_lock; every piece of process-global state on an API path is either protected, "
              "environment-derived, or reported; per-call resources have per-call unique names. A data race needs one specific "
@@ -214,7 +214,7 @@ PROPS = {
              "class attributes used as scratch variables), three demonstrated with forced interleavings (triage/race_demo.py)."),
     "C10": dict(
         claimed=True, design="§3 C10",
-        technique="def-use provenance of structure objects from interpreter.visit() to the returned Dataset/Scalar; AST shape rule on the fetch projection; who-may-write rule over structure fields (execution pipeline) and reviewed-writer table for role/nullable; structure model (E6) of membership (validator vs structure builder vs SELECT list); row-multiplicity rule for exists_in (JOIN keys vs identifiers of the probed operand); finite evaluation of If.validate over component nullability",
+        technique="def-use provenance of structure objects from interpreter.visit() to the returned Dataset/Scalar; AST shape rule on the fetch projection; who-may-write rule over structure fields (execution pipeline) and reviewed-writer table for role/nullable; structure model (E6) of membership (validator vs structure builder vs SELECT list); row-multiplicity rule for exists_in (JOIN keys vs identifiers of the probed operand); finite evaluation of If.validate over component nullability; vtl_tp_shift cells (shared with C08); operand-mutation effect analysis over the analytic / aggregation / time validators (shared with C12)",
         text="Decides the structural clause of the property: run() returns the very structure objects its semantic pass (configured like "
              "semantic_analysis()) produced; the fetch query projects the declared components in declared order (no physical-order "
              "SELECT * when components are declared); nothing in the execution pipeline rewrites type/role/nullability/components of "
@@ -224,7 +224,7 @@ PROPS = {
              "finding: fetch_result relabels Null-typed scalars from the DuckDB column type."),
     "C24": dict(
         claimed=True, design="§3 C24",
-        technique="writer/reader agreement between the ASTString renderer (specialised to pretty mode by branch pruning) and the grammar + AST constructor: typed field-read inventory vs constructed node classes, operator dispatch vs grammar alternative shapes (ANTLR .g4 reader), elided defaults vs downstream defaults, literal/name formatting vs lexer tokens (constant-folded reserved-word table, quote-provenance analysis of the constructor), taint rule for text rewriting, CFG set/reset pairing of rendering flags; positional-list iteration rule (no filtering of params/children/operands); inventory of long-lived renderer instances (stateful class bound at module/class level); presence tests of Optional scalar fields must be `is None` (type read from the AST dataclasses), attributed to rendering mode; finite evaluation of the quote flag on names the grammar's IDENTIFIER does not admit",
+        technique="writer/reader agreement between the ASTString renderer (specialised to pretty mode by branch pruning) and the grammar + AST constructor: typed field-read inventory vs constructed node classes, operator dispatch vs grammar alternative shapes (ANTLR .g4 reader), elided defaults vs downstream defaults, literal/name formatting vs lexer tokens (constant-folded reserved-word table, quote-provenance analysis of the constructor), taint rule for text rewriting, CFG set/reset pairing of rendering flags; positional-list iteration rule (no filtering of params/children/operands); inventory of long-lived renderer instances (stateful class bound at module/class level); presence tests of Optional scalar fields must be `is None` (type read from the AST dataclasses), attributed to rendering mode; finite evaluation of the quote flag on names the grammar's IDENTIFIER does not admit; _break_parentheses evaluated on literal-bearing expressions (literals read back with the lexer's rule)",
         text="Decides the structural clauses of meaning preservation: prettify() loses no field of any node the parser can build; every "
              "operator is written in the shape the grammar reads back; parameters omitted as defaults are the defaults assumed when absent; "
              "numbers, booleans, nulls are written losslessly with the lexer's own spellings; every keyword is in the re-quoting table and "
@@ -235,7 +235,7 @@ PROPS = {
              "Names that need quotes without being reserved words (e.g. 'my ds') are not covered. Known finding: 3.0 is written 3."),
     "C25": dict(
         claimed=True, design="§3 C25",
-        technique="totality of ast_to_sdmx's isinstance dispatch over the return-class closure of the AST constructor's visitStatement (class hierarchy aware); def-use of the Transformation/Ruleset/UDO fields; per-branch counter/append ordering; compact-mode field-read inventory of the renderer; the literal/operator/default/name rules and the interprocedural text-rewrite taint rule shared with C24; positional-list iteration rule; one renderer instance per rendering (inventory of long-lived instances of the stateful renderer class); ruleset items evaluated on model nodes with a renderer model that marks rendered text; finite evaluation of ast_to_sdmx on a whole model script",
+        technique="totality of ast_to_sdmx's isinstance dispatch over the return-class closure of the AST constructor's visitStatement (class hierarchy aware); def-use of the Transformation/Ruleset/UDO fields; per-branch counter/append ordering; compact-mode field-read inventory of the renderer; the literal/operator/default/name rules and the interprocedural text-rewrite taint rule shared with C24; positional-list iteration rule; one renderer instance per rendering (inventory of long-lived instances of the stateful renderer class); ruleset items evaluated on model nodes with a renderer model that marks rendered text; finite evaluation of ast_to_sdmx on a whole model script; sequential written-globals inventory over the API layer",
         text="Decides the structural clauses of scheme equivalence: every kind of top-level statement the parser can build is mapped "
              "(subclass before base), each assignment gives one Transformation carrying the statement's own result name, "
              "persistence constant and rendered right-hand side, item ids come from counters incremented once per item, definitions "
@@ -246,7 +246,7 @@ PROPS = {
              "3.0 written as 3."),
     "C23": dict(
         claimed=True, design="§3 C23",
-        technique="lexical/brace-matched analysis of bindings.cpp (ParserState members vs resets before parser->start(), listener installation); statement-CFG must-pass-through / must-precede rules on the function that calls parse(); call-graph parse-path set checked for memoisation decorators and for process-global containers without per-parse reset (globals inventory); acquire/release pairing of the parser lock on normal and exceptional exits (incl. generator context managers); raise-site inventory with grammar-exhaustiveness of ctx_id dispatch chains (ANTLR .g4 reader); inventory of import-time instances of mutable in-repo classes used on the parse path; CFG dominance of the per-parse reset over every call that reaches a user of the container; lock obligation attributed to the branch of an acquire(timeout) condition that holds the lock; taint rule: caller text never the receiver of str.format",
+        technique="lexical/brace-matched analysis of bindings.cpp (ParserState members vs resets before parser->start(), listener installation); statement-CFG must-pass-through / must-precede rules on the function that calls parse(); call-graph parse-path set checked for memoisation decorators and for process-global containers without per-parse reset (globals inventory); acquire/release pairing of the parser lock on normal and exceptional exits (incl. generator context managers); raise-site inventory with grammar-exhaustiveness of ctx_id dispatch chains (ANTLR .g4 reader); inventory of import-time instances of mutable in-repo classes used on the parse path; CFG dominance of the per-parse reset over every call that reaches a user of the container; lock obligation attributed to the branch of an acquire(timeout) condition that holds the lock; taint rule: caller text never the receiver of str.format; coded-exception sites of the AST modules (code catalogued, placeholders supplied; shared with C26); sequential written-globals inventory over vtlengine.AST",
         text="Decides the structural clauses of the parser property: every piece of the C++ parser's global state is reset per parse and "
              "errors of lexer and parser are collected; the Python side reads this parse's error after parse() and raises "
              "VTLSyntaxError with the parser's own position before the tree is used, on every path; no function on the parse path "
@@ -258,7 +258,7 @@ PROPS = {
              "optional parts are counted, not decided. Eight known findings (built-in exceptions for grammar-valid constructs)."),
     "C03": dict(
         claimed=True, design="§3 C03",
-        technique="typed field-read inventory of the SQL transpiler for Aggregation; paired-field rule (grouping/grouping_op); CFG must-reach of the translated having condition to the builder's HAVING in both aggregation paths; def-use provenance of the group-identifier lists (operand structure vs statement output structure); who-may-call rule (no WHERE on the aggregating builder); registry templates vs the grammar's aggregate operators (same-name rule); clause-scope coverage of the translated having / aggregate / grouping expressions; structure model (E6): Aggregation.validate vs the StructureVisitor's aggregation builder; decision table of the type-aware aggregate override; path form of the dependency traversal for aggregations; unknown-name resolution evaluated",
+        technique="typed field-read inventory of the SQL transpiler for Aggregation; paired-field rule (grouping/grouping_op); CFG must-reach of the translated having condition to the builder's HAVING in both aggregation paths; def-use provenance of the group-identifier lists (operand structure vs statement output structure); who-may-call rule (no WHERE on the aggregating builder); registry templates vs the grammar's aggregate operators (same-name rule); clause-scope coverage of the translated having / aggregate / grouping expressions; structure model (E6): Aggregation.validate vs the StructureVisitor's aggregation builder; decision table of the type-aware aggregate override; path form of the dependency traversal for aggregations; unknown-name resolution evaluated; time_agg grouping-key macro evaluated against the calendar (shared with C08)",
         text="Decides the structural clauses of aggregation: no part of the aggregation syntax is ignored by the SQL generation; the "
              "grouping list is interpreted with its by/except/all operator; a having condition cannot be dropped on any path; the "
              "identifiers that define the groups come from the operand and the grouping clause, not from the statement's final "
@@ -268,7 +268,7 @@ PROPS = {
              "DuckDB error). Null handling inside DuckDB's aggregates is trusted."),
     "C04": dict(
         claimed=True, design="§3 C04",
-        technique="typed field-read inventory for JoinOp/NvlJoinPair; constant folding of the join-keyword expression over the grammar's join tokens; sibling-site agreement in visit_JoinOp (FULL JOIN key coalescing in SELECT and ON; nvl defaults in every projection branch); CFG rule on the per-statement reset of join scratch state with wrapper summaries; restoring-context-manager rule for attribute rebinding; join model: abstract interpretation (E6) of Operators.Join.*.validate and SQLTranspiler.visit_JoinOp on small operand structures, comparing SELECT list with the semantic components and every ON clause with the relational definition (keys, referenced operand, join type); CFG rule alias-recorded-after-operand; finite evaluation of the join prefix stripping",
+        technique="typed field-read inventory for JoinOp/NvlJoinPair; constant folding of the join-keyword expression over the grammar's join tokens; sibling-site agreement in visit_JoinOp (FULL JOIN key coalescing in SELECT and ON; nvl defaults in every projection branch); CFG rule on the per-statement reset of join scratch state with wrapper summaries; restoring-context-manager rule for attribute rebinding; join model: abstract interpretation (E6) of Operators.Join.*.validate and SQLTranspiler.visit_JoinOp on small operand structures, comparing SELECT list with the semantic components and every ON clause with the relational definition (keys, referenced operand, join type); CFG rule alias-recorded-after-operand; finite evaluation of the join prefix stripping; Alias.validate evaluated for text and registered-dataset aliases; row filter of the output-representation UPDATE evaluated on outer-join NULL patterns",
         text="Decides the structural clauses of joins: using / nvl / every clause are consumed; the four join operators select four "
              "different SQL joins; full-join keys are coalesced across the joined operands wherever the joined side is referenced; "
              "join scratch state cannot leak from one statement into the next; nvl defaults apply in every projection branch. Found "
@@ -276,7 +276,7 @@ PROPS = {
         note="The choice of the left-hand alias of ON clauses for inner/left joins is not decided (seeded change C04_1 is missed)."),
     "C06": dict(
         claimed=True, design="§3 C06",
-        technique="typed field-read inventory for Analytic/Windowing/OrderBy; paired-field rule (partition_by/partition_op, bounds/modes); guard-emission pairing on the CFG of the OVER-clause builder (strict ORDER BY guard); registry templates vs the grammar's analytic operators (same-name rule, sibling shape agreement); evaluation of the window-bound formatter over all bound shapes; abstract interpretation (E6) of visit_Windowing over every frame shape (offsets 0-3, unbounded, current; data points / range; date ordering) against the offset semantics of the frame; decision table (E6) of the AST constructor's window-limit ordering; spelling grid; window-kind comparisons vs grammar token texts",
+        technique="typed field-read inventory for Analytic/Windowing/OrderBy; paired-field rule (partition_by/partition_op, bounds/modes); guard-emission pairing on the CFG of the OVER-clause builder (strict ORDER BY guard); registry templates vs the grammar's analytic operators (same-name rule, sibling shape agreement); evaluation of the window-bound formatter over all bound shapes; abstract interpretation (E6) of visit_Windowing over every frame shape (offsets 0-3, unbounded, current; data points / range; date ordering) against the offset semantics of the frame; decision table (E6) of the AST constructor's window-limit ordering; spelling grid; window-kind comparisons vs grammar token texts; dependency handlers of analytic nodes (field matrix + every-path traversal, shared with C12); _resolve_udo_name evaluated on swapped / shifted operator bindings (no variable capture)",
         text="Decides the structural clauses of analytic invocations: partition, order, window and parameters all reach the OVER "
              "clause; `partition except` is honoured wherever the partition is used; ORDER BY is emitted exactly when the script "
              "has an order by and the frame exactly when it has a window; every analytic operator is the SQL window function of the "
@@ -285,7 +285,7 @@ PROPS = {
         note="Analytic without order by (frame without ORDER BY) is reported under C15/C33, since C06 speaks about total orderings."),
     "C07": dict(
         claimed=True, design="§3 C07",
-        technique="typed field-read inventory for the validation node classes; enum-member vs comparison-constant coverage of the mode dispatch; alias analysis from the ruleset/operator registries to mutation sites (interprocedural over transpiler methods); reader/writer agreement on the hierarchy pivot's presence columns; exact three-valued evaluation of the parsed SQL that filters invalid rows and gates errorcode/errorlevel; finite decision table (E6) of the errorcode/errorlevel literal helper (NULL iff absent); taint from the measure to the presence expression of the hierarchy pivot; structure model of check() (validator vs structure builder vs SELECT list); def-use rule on the hierarchical-ruleset sorter (sorted list = permutation of all rules); positional / definitional identification of SQL holes in the gating CASE and WHERE; effect analysis of the validation operators; def-use rule on the hierarchy `all` projection",
+        technique="typed field-read inventory for the validation node classes; enum-member vs comparison-constant coverage of the mode dispatch; alias analysis from the ruleset/operator registries to mutation sites (interprocedural over transpiler methods); reader/writer agreement on the hierarchy pivot's presence columns; exact three-valued evaluation of the parsed SQL that filters invalid rows and gates errorcode/errorlevel; finite decision table (E6) of the errorcode/errorlevel literal helper (NULL iff absent); taint from the measure to the presence expression of the hierarchy pivot; structure model of check() (validator vs structure builder vs SELECT list); def-use rule on the hierarchical-ruleset sorter (sorted list = permutation of all rules); positional / definitional identification of SQL holes in the gating CASE and WHERE; effect analysis of the validation operators; def-use rule on the hierarchy `all` projection; hierarchy rule selection of visit_HROperation evaluated on rulesets with WHEN-guarded rules (which rules aggregate; one rule per code item)",
         text="Decides the structural clauses of validation: error codes/levels, imbalance, output and validation modes are all consumed; "
              "every validation mode is dispatched and zero substitution is tied to absence of a code item in exactly the *_zero modes; "
              "no statement can edit the ruleset definitions that later statements use; for check, check_datapoint and "
@@ -295,7 +295,7 @@ PROPS = {
         note="SQL three-valued logic is an oracle in the checker. check_datapoint `components` is validated semantically only (reasoned exemption)."),
     "C28": dict(
         claimed=True, design="§3 C28",
-        technique="CFG must-pass-through on the interpreter's statement loop (1-3-3-6 before store); def-use from ViralPropagationDef fields to the rule constructor and rule-field read inventory; table extraction (_AGG_BINARY/_AGG_GROUP vs grammar tokens); exact rational evaluation of the parsed two-operand SQL forms for associativity/commutativity vs the N-ary fold; structural order of CASE arms; order lint + paired-field rule for the group/window forms; call-site inventory of vp_* helpers per operator handler; UNION ALL rule on row sets gathered for a propagation reduction; viral-attribute shapes through interpreter and StructureVisitor models; enumerated CASE generated and evaluated for all value pairs; group form lowered per rule kind; aggregation structure model (viral projection)",
+        technique="CFG must-pass-through on the interpreter's statement loop (1-3-3-6 before store); def-use from ViralPropagationDef fields to the rule constructor and rule-field read inventory; table extraction (_AGG_BINARY/_AGG_GROUP vs grammar tokens); exact rational evaluation of the parsed two-operand SQL forms for associativity/commutativity vs the N-ary fold; structural order of CASE arms; order lint + paired-field rule for the group/window forms; call-site inventory of vp_* helpers per operator handler; UNION ALL rule on row sets gathered for a propagation reduction; viral-attribute shapes through interpreter and StructureVisitor models; enumerated CASE generated and evaluated for all value pairs; group form lowered per rule kind; aggregation structure model (viral projection); merged_viral_attribute_names evaluated over all occurrence patterns in 2 and 3 operands",
         text="Decides the structural clauses of viral propagation: a result with a rule-less viral attribute cannot be stored; every "
              "part of a rule definition reaches the SQL generation; the four aggregate functions are in both tables and a two-operand "
              "form folded over N operands is associative and commutative or has its own N-ary form; two-value clauses are tested "
@@ -305,7 +305,7 @@ PROPS = {
         note="Known findings: the enumerated fold over a group (list_reduce(list(col))) is input-order dependent (two forms)."),
     "C02": dict(
         claimed=True, design="§12.7 C02",
-        technique="abstract interpretation over a finite structure domain (component names and roles): the interpreter's clause validators, the StructureVisitor's clause builders and the SQL clause handlers are read from source and evaluated by the E6 evaluator on mock structures for every small operand list; their component sets / SELECT lists / WHERE conditions are compared; three-valued evaluation of the filter predicate; restoring-context-manager rule; typed field-read inventory; calc with every role keyword (roles of validator vs builder), expression-scope analysis of nested SELECT levels, clause-scope coverage of translated component expressions; effect analysis of clause validators (operand mutation); path form of the dependency traversal; model evaluation of the final join un-qualification",
+        technique="abstract interpretation over a finite structure domain (component names and roles): the interpreter's clause validators, the StructureVisitor's clause builders and the SQL clause handlers are read from source and evaluated by the E6 evaluator on mock structures for every small operand list; their component sets / SELECT lists / WHERE conditions are compared; three-valued evaluation of the filter predicate; restoring-context-manager rule; typed field-read inventory; calc with every role keyword (roles of validator vs builder), expression-scope analysis of nested SELECT levels, clause-scope coverage of translated component expressions; effect analysis of clause validators (operand mutation); path form of the dependency traversal; model evaluation of the final join un-qualification; join bookkeeping reset per statement (state discipline shared with C04/C12); prefix stripping after a join evaluated on abstract join results (dict key == component name, shared with C04)",
         text="Decides the structural half of the clause property: for calc, keep, drop, rename and sub the three pieces of code that say "
              "which components the result has (semantic validator, transpiler structure builder, SELECT list of the generated SQL) agree on "
              "every small operand list the validator accepts, i.e. the clause changes exactly the listed components; filter hands the "
@@ -317,7 +317,7 @@ PROPS = {
              "(alias#component) are not in the domain."),
     "C29": dict(
         claimed=True, design="§12.7 C29",
-        technique="inventory and receiver classification of every case-folding string method call in the package; shape rule on the VTL-name -> SQL-identifier function against DuckDB's case-insensitive identifier comparison (external fact encoded in the rule); clause model over case-variant component names (key == name, case-sensitive three-way comparison); CFG must-pass DROP in the deletion loop; must-reject cases of the clause validators; CFG pairing conn.register / unregister",
+        technique="inventory and receiver classification of every case-folding string method call in the package; shape rule on the VTL-name -> SQL-identifier function against DuckDB's case-insensitive identifier comparison (external fact encoded in the rule); clause model over case-variant component names (key == name, case-sensitive three-way comparison); CFG must-pass DROP in the deletion loop; must-reject cases of the clause validators; CFG pairing conn.register / unregister; semantic validators evaluated with case variants of existing component names",
         text="Decides the two places where this repository can merge names that differ only in case: the Python side never folds the "
              "case of a component, dataset or alias name (every .lower()/.upper()/... call is inventoried and classified; the two "
              "that touch names only attribute error messages), and the function that writes a VTL name into SQL is checked for "
